@@ -18,6 +18,7 @@ Yap 6.3 manual section "Arithmetic" and YAP's C/arith1.c, C/arith2.c.
 """
 import itertools
 import math
+import re
 
 INT = "int"
 FLT = "float"
@@ -183,10 +184,6 @@ def round_half_even(x):
     if d > 0.5:
         return int(f) + 1
     return int(f) if int(f) % 2 == 0 else int(f) + 1
-
-
-def round_iso(x):
-    return int(math.floor(x + 0.5))
 
 
 _MATH1 = {
@@ -631,7 +628,7 @@ def from_json(j):
     raise ValueError("bad term %r" % (j,))
 
 
-_PLAIN_ATOM = __import__("re").compile(r"^[a-z][A-Za-z0-9_]*$")
+_PLAIN_ATOM = re.compile(r"^[a-z][A-Za-z0-9_]*$")
 
 
 def atom_text(name):
@@ -842,8 +839,8 @@ def fresh():
     return ("v", "_F%d" % _fresh_counter[0])
 
 
-_NUM_RE = __import__("re").compile(r"^-?[0-9]+$")
-_FLT_RE = __import__("re").compile(r"^-?[0-9]+\.[0-9]+$")
+_NUM_RE = re.compile(r"^-?[0-9]+$")
+_FLT_RE = re.compile(r"^-?[0-9]+\.[0-9]+$")
 
 
 def ref_builtin(pred, jargs):
@@ -1004,9 +1001,9 @@ def _ref_builtin(pred, args):
             num = ("i", int(name))
         elif _FLT_RE.match(name):
             num = ("x", float(name))
-        elif __import__("re").match(r"^[a-zA-Z_]*$", name) and name not in ("inf", "nan", "infinite", "epsilon", "e"):
+        elif re.match(r"^[a-zA-Z_]*$", name) and name not in ("inf", "nan", "infinite", "epsilon", "e"):
             return TRef([], err_ok=True)  # not number syntax: fails silently (SWI manual 4.22); Yap: syntax error
-        elif __import__("re").match(r"^[0-9]+[a-df-wyzA-DF-WYZ_][a-zA-Z]*$", name):
+        elif re.match(r"^[0-9]+[a-df-wyzA-DF-WYZ_][a-zA-Z]*$", name):
             return TRef([], err_ok=True)  # '12abc': SWI fails (syntax error is caught), Yap fails
         else:
             return TRef(unjudged="atom_number/2 on exotic number syntax")
